@@ -1,6 +1,7 @@
 """C04 - configuration identities are pure functions of configuration meaning.
 
-D1 no ambient inputs in the identity slice, D2 key-order insensitivity of everything hashed,
+D1 no ambient inputs in the identity slice (D1b: nor handed to it by the functions it calls), D2 key-order
+insensitivity of everything hashed (D2b: no repr/str text of a container in a hashed value; sorts of sets are total),
 D3 history independence (no mutation of caller-owned identity inputs, no module state),
 D4 inspect and run time use the same id functions on the same fields, D5 = C12 rules.
 """
@@ -116,6 +117,7 @@ def run(repo: Repo, R: Report) -> None:
         "json.dumps(sort_keys=True) is insensitive to mapping order; sha256/uuid5 are deterministic",
     )
     R.undecided("YAML-text level rewrites (decided by the YAML parser); cross-process equality beyond the absence of ambient / hash-seed dependent constructs")
+    R.undecided("the repr() fallback of variable_domain_signature / _json_safe_sample for values json.dumps rejects (C04-D2b accepts a rendering that is only reached after json.dumps of the same value failed): a sequence element that is a mapping holding a non-JSON scalar (YAML date) is still rendered in key order, a YAML !!set in hash-seed order - residual of the unchanged tree, reproduced by hand")
     no_mutation_of_hashed_input(repo, R)
     from . import c04_rest
 
